@@ -286,7 +286,7 @@ def engineC04 : Engine :=
 def engineC08 : Engine :=
   mkEngine (I := World) (O := C08Obs) c08Model domC08 judgeC08
 def engineC09 : Engine :=
-  mkEngine (I := World) (O := C09Obs) c09Model (fun _ => true) judgeC09
+  mkEngine (I := World) (O := C09Obs) c09Model domC09 judgeC09
 structure WorldQ where
   w : World
   qs : List (Ref × QKind)
